@@ -7,6 +7,7 @@ EXPLANATION = (
 
 
 def check(ctx, prog):
+    dispatch.rule_status_exhaustive(ctx, prog)  # every status a consistency algorithm can answer is one solve_one's dispatch names
     dispatch.rule_swallowed_raise(ctx, prog)  # scope: no division by a possibly-zero quantity behind a function pointer (the error is discarded, the status is arbitrary)
     model.rule_posted_kept(ctx, prog)  # every posted constraint stays posted (who may write the list of constraints)
     search.rule_resume(ctx, prog)
